@@ -131,31 +131,37 @@ Theorem C17_edate_compose : forall n a b y m d, 60 < n <= 2958465 ->
 Proof. exact edate_compose. Qed.
 Print Assumptions C17_edate_compose.
 
-(* NEVER AN EXCEPTION (partial: bounded month/day/shift; beyond the bounds the
-   model does raise — TypeError from is_leap_year(year <= 0), or the recursion
-   budget — Refuted/C17_date_exceptions.v).  [date_value v]: v is #NUM!, the float
-   60.0 (1900-02-29) or a serial day 0..2958465.  Through the decorator wrappers
-   (Model/DateFuncs.v X_date, X_edate, X_eomonth):
-   DATE of ANY integer year, any month >= -11000 and any day in -25000..25000, and
-   EDATE / EOMONTH of ANY integer serial number and any shift >= -10000, return a value. *)
+(* NEVER AN EXCEPTION (partial only in the day: normalize_year recurses once per
+   month carried, the model's budget is 900 calls, Python's limit about 985; beyond
+   it the implementation raises RecursionError and the model OutOfFuel —
+   Refuted/C17_date_exceptions.v, known finding C17-day-recursion).
+   [date_value v]: v is #NUM!, the float 60.0 (1900-02-29) or a serial day
+   0..2958465.  Through the decorator wrappers (Model/DateFuncs.v X_date, X_edate,
+   X_eomonth): DATE of ANY integer year and month and any day in -25000..25000, and
+   EDATE / EOMONTH of ANY integer serial number and ANY integer shift, return a
+   value (since repair 7da3fd9 no month or shift bound is needed). *)
 Theorem C17_date_total_partial :
-  (forall y m d, -11000 <= m -> -25000 <= d <= 25000 ->
+  (forall y m d, -25000 <= d <= 25000 ->
      exists v, X_date [VInt y; VInt m; VInt d] = Ok v /\ date_value v)
-  /\ (forall n k, -10000 <= k ->
+  /\ (forall n k,
         (exists v, X_eomonth [VInt n; VInt k] = Ok v /\ num_or_int v)
         /\ (exists v, X_edate [VInt n; VInt k] = Ok v /\ date_value v)).
 Proof. exact wrapped_total. Qed.
 Print Assumptions C17_date_total_partial.
 
-(* for a day 1..28 DATE is decided for ALL integer years and months: TypeError
-   exactly when the normalised month is February of a normalised year <= 0
-   (yadj: years below 1900 are read as 1900 + year), else a value *)
+(* for a day 1..28 DATE returns a value for ALL integer years and months — never a
+   Raise (before repair 7da3fd9: TypeError at February of a normalised year <= 0) *)
 Theorem C17_date_small_day : forall y m d, 1 <= d <= 28 ->
-  if (0 <=? y) && (y <=? 9999) && (nmonth m =? 2) && (nyear (yadj y) m <=? 0)
-  then date_time.f_date (VInt y) (VInt m) (VInt d) = Raise TypeError
-  else exists v, date_time.f_date (VInt y) (VInt m) (VInt d) = Ok v /\ date_value v.
+  exists v, date_time.f_date (VInt y) (VInt m) (VInt d) = Ok v /\ date_value v.
 Proof. exact date_small_day. Qed.
 Print Assumptions C17_date_small_day.
+
+(* a month that normalises to a year before 1 gives #NUM!, for EVERY integer day
+   (yadj: years below 1900 are read as 1900 + year) *)
+Theorem C17_date_before_year1 : forall y m d, nyear (yadj y) m < 1 ->
+  date_time.f_date (VInt y) (VInt m) (VInt d) = Ok excelutil.c_NUM_ERROR.
+Proof. exact date_before_year1. Qed.
+Print Assumptions C17_date_before_year1.
 
 (* YEAR / MONTH / DAY / WEEKDAY (wrapped) of EVERY integer: numbers of the right
    range on 0..2958465, #NUM! everywhere else *)
@@ -199,16 +205,14 @@ Theorem C17_day_carry_overflow : forall y m d, 1900 <= y <= 9999 ->
 Proof. exact day_carry_overflow. Qed.
 Print Assumptions C17_day_carry_overflow.
 
-(* ... and EDATE / EOMONTH whose target month lies before 1899 or after 9999 (y3, m3:
-   the month after the target, whose first day EOMONTH computes; the guard "February
-   only of a positive year" excludes the TypeError of Refuted/C17_date_exceptions.v) *)
+(* ... and EDATE / EOMONTH whose target month lies before 1899 or after 9999, for
+   EVERY integer shift (y3: the year of the month after the target, whose first
+   day EOMONTH computes) *)
 Theorem C17_months_out_of_calendar : forall n k y m d, 60 < n <= 2958465 ->
   ord2ymd (693594 + n) = (y, m, d) ->
-  (let y2 := nyear y (m + k) in let m2 := nmonth (m + k) in
-   (m2 = 2 -> 0 < y2) -> y2 < 1899 \/ 10000 <= y2 ->
+  (let y2 := nyear y (m + k) in y2 < 1899 \/ 10000 <= y2 ->
    date_time.f_edate (VInt n) (VInt k) = Ok excelutil.c_NUM_ERROR)
-  /\ (let y3 := nyear y (m + k + 1) in let m3 := nmonth (m + k + 1) in
-      (m3 = 2 -> 0 < y3) -> y3 < 1899 \/ 10000 <= y3 ->
+  /\ (let y3 := nyear y (m + k + 1) in y3 < 1899 \/ 10000 <= y3 ->
       date_time.f_eomonth (VInt n) (VInt k) = Ok excelutil.c_NUM_ERROR).
 Proof. exact months_out_of_calendar. Qed.
 Print Assumptions C17_months_out_of_calendar.
